@@ -230,11 +230,12 @@ pub struct Faults {
     pub extra_delay_pct: u32, // chance of an extra delay of up to extra_delay_ms
     pub extra_delay_ms: u64,
     pub max_latency_ms: u64, // uniform in [0, max)
+    pub dup_back_to_back: bool, // duplicates are delivered right behind the original
 }
 
 impl Default for Faults {
     fn default() -> Self {
-        Faults { drop_pct: 0, dup_pct: 0, extra_delay_pct: 0, extra_delay_ms: 0, max_latency_ms: 1000 }
+        Faults { drop_pct: 0, dup_pct: 0, extra_delay_pct: 0, extra_delay_ms: 0, max_latency_ms: 1000, dup_back_to_back: false }
     }
 }
 
@@ -382,7 +383,7 @@ impl NetInner {
             delay += self.rng.gen_range(0..=f.extra_delay_ms);
         }
         if f.dup_pct > 0 && self.rng.gen_range(0..100) < f.dup_pct {
-            let extra = self.rng.gen_range(0..=1500);
+            let extra = if f.dup_back_to_back { 0 } else { self.rng.gen_range(0..=1500) };
             self.enqueue(Dgram { src: d.src, dst: d.dst, bytes: d.bytes.clone() }, delay + extra);
         }
         self.enqueue(d, delay);
